@@ -7,6 +7,7 @@ import Holpy.C15.Proofs.Analyze
 import Holpy.C15.Proofs.NoCrash
 import Holpy.C15.Proofs.TraceInv
 import Holpy.C15.Proofs.Fuel
+import Holpy.C15.Proofs.Terminate
 import Holpy.C15.Proofs.MainLoop
 import Holpy.C15.Proofs.Solver
 import Holpy.C15.Proofs.Tseitin
